@@ -2,6 +2,7 @@
 from __future__ import annotations
 
 import itertools
+from ipaddress import IPv4Address
 from typing import Any, Dict, List, Optional
 
 from hypothesis import strategies as st
@@ -279,6 +280,19 @@ def check_registries(node, res: CaseResult, when: str, dup_at_build: Optional[Li
         for name in d & a:
             if state[key][name].get("uuid") != inst[name].uuid:
                 bad(f"registry:state-of-stale-instance:{kind}", f"describe_state()[{key}][{name}] describes another instance")
+    # check_port_is_open(port, protocol) <=> some RUNNING software uses that (port, protocol)  (its docstring; nmap answers
+    # remote port scans from it), and whatever it reports open is also in get_open_ports()
+    open_now = set(sm.get_open_ports())
+    for v in inst.values():
+        says = bool(sm.check_port_is_open(port=v.port, protocol=v.protocol))
+        owner = any(w.operating_state.name == "RUNNING" and (w.port, w.protocol) == (v.port, v.protocol) for w in inst.values())
+        if says and not owner:
+            bad(f"check-port-is-open-without-running-owner:{v.operating_state.name}",
+                f"check_port_is_open({v.port}, {v.protocol}) is True but no RUNNING software uses it ({v.name} is {v.operating_state.name})")
+        elif owner and not says:
+            bad("check-port-is-open-false-with-running-owner", f"check_port_is_open({v.port}, {v.protocol}) is False, RUNNING software uses it")
+        elif says and v.port not in open_now:
+            bad("check-port-is-open-disagrees-with-get-open-ports", f"check_port_is_open({v.port}, {v.protocol}) is True, get_open_ports() lacks it")
     # open ports == ports of RUNNING software
     exp = set()
     for v in inst.values():
@@ -458,6 +472,7 @@ def _run(case, res, game, sim, node, peer, sm, spy, kind, typ, ops, base):
     was_running_at_off = False
     nontrivial = False
     seen_uninstall = False
+    fixp: Optional[Dict] = None  # fix in flight on the target: {"d", "ticks", "clean"}
     route_loss: Dict[tuple, str] = {}  # (port, protocol) -> which kind of uninstall last happened on that key (signature bucket)
     n_refused = n_accepted = n_deliv_running = n_deliv_stopped = 0
 
@@ -540,6 +555,8 @@ def _run(case, res, game, sim, node, peer, sm, spy, kind, typ, ops, base):
 
     def power_request(verb, when) -> bool:
         nonlocal m_state, pending
+        if fixp is not None:
+            fixp["clean"] = False
         prev_ns, pre = node.operating_state, m_state
         try:
             sim.apply_request(form(kind, typ, verb))
@@ -560,10 +577,25 @@ def _run(case, res, game, sim, node, peer, sm, spy, kind, typ, ops, base):
         return True
 
     def tick_op(when) -> bool:
-        nonlocal pending, m_state
+        nonlocal pending, m_state, fixp
         prev_ns, on_before = node.operating_state, node_on()
         if not do_tick(when):
             return False
+        if fixp is not None:
+            if not (on_before and node_on()):
+                fixp["clean"] = False
+            fixp["ticks"] += 1
+            lo, hi = band(fixp["d"])
+            if health() != "FIXING":
+                if fixp["clean"] and health() is not None:
+                    if not lo <= fixp["ticks"] <= hi:
+                        res.violate("fix-duration-out-of-band",
+                                    f"{when}: fix with fixing_duration {fixp['d']} completed after {fixp['ticks']} ticks, accepted {lo}..{hi}")
+                    res.label("timed-fix-completed")
+                fixp = None
+            elif fixp["clean"] and fixp["ticks"] >= hi:
+                res.violate(f"fix-overdue:{typ}", f"{when}: still FIXING after {fixp['ticks']} ticks with fixing_duration {fixp['d']}")
+                fixp["clean"] = False
         if power_edge(prev_ns, m_state, when):
             return True
         obs = state()
@@ -670,6 +702,8 @@ def _run(case, res, game, sim, node, peer, sm, spy, kind, typ, ops, base):
                 if obs != pending["state"]:
                     pending = None
             was_running_at_off = False
+            if fixp is not None:
+                fixp["clean"] = False
             m_state = obs
 
         elif k in ("payload", "payload_other"):
@@ -733,6 +767,29 @@ def _run(case, res, game, sim, node, peer, sm, spy, kind, typ, ops, base):
                 res.violate(f"payload-changed-operating-state:{kind}:{m_state}->{state()}", when)
                 m_state = state()
 
+        elif k == "scan_port":
+            # the peer's nmap scans the target software's own (port, protocol); the scanned host's nmap answers
+            x = cur()
+            if x is None or x.protocol not in ("tcp", "udp") or not x.port:
+                res.label("scan-not-applicable")
+                continue
+            try:
+                found = peer.software_manager.software["nmap"].port_scan(
+                    target_ip_address=IPv4Address(IP0), target_protocol=x.protocol, target_port=x.port, show=False)
+            except Exception as e:
+                res.violate(f"raise:scan_port:{exc_sig(e)}", f"{when}: {exc_msg(e)}")
+                return
+            reported = any(x.port in ports for protos in (found or {}).values() for ports in protos.values())
+            owner = any(w.operating_state.name == "RUNNING" and (w.port, w.protocol) == (x.port, x.protocol)
+                        for w in sm.software.values())
+            res.label("remote-scan-reports-open" if reported else "remote-scan-reports-nothing")
+            if reported and not (owner and node_on()):
+                res.violate(f"remote-scan-sees-port-of-non-running-software:{m_state if node_on() else 'node-not-on'}",
+                            f"{when}: the peer's port scan lists {x.port}/{x.protocol} of {typ} as open, no RUNNING software uses it")
+            if state() != m_state:
+                res.violate(f"payload-changed-operating-state:{kind}:{m_state}->{state()}", when)
+                m_state = state()
+
         elif k == "uninstall_other":
             name = op[1]
             o = sm.software.get(name)
@@ -763,6 +820,8 @@ def _run(case, res, game, sim, node, peer, sm, spy, kind, typ, ops, base):
                 res.violate(f"raise:{k}:{exc_sig(e)}", f"{when}: {exc_msg(e)}")
                 return
             obs = state()
+            if k == "uninstall" and obs == "ABSENT":
+                fixp = None
             if k == "uninstall" and o_pre is not None and obs == "ABSENT":
                 route_loss[(o_pre.port, o_pre.protocol)] = ("after-uninstall-of-route-owner" if owner_pre is o_pre
                                                             else "after-uninstall-of-non-owner")
@@ -882,6 +941,8 @@ def _run(case, res, game, sim, node, peer, sm, spy, kind, typ, ops, base):
                 if r.status != "success" and obs != pre and verb != "execute":  # execute = run, then act: the act may fail
                     res.violate(f"refused-request-changed-operating-state:{sig_tail}", f"{when}: {r.status}, {pre} -> {obs}")
             # bookkeeping of timed transitions
+            if verb == "fix" and r.status == "success" and hp != "FIXING" and health() == "FIXING":
+                fixp = {"d": cur().config.fixing_duration, "ticks": 0, "clean": True}
             if obs == "RESTARTING" and pre != "RESTARTING":
                 d = cur().restart_duration
                 pending = {"what": "restart", "state": "RESTARTING", "d": d, "ticks": 0, "clean": True,
@@ -948,7 +1009,7 @@ def direct_ops(kind: str) -> List:
 
 def ops_strategy(kind: str, max_len: int, typ: Optional[str] = None):
     common = [st.just(["tick"])] * 3 + [st.just(["node_off"]), st.just(["node_on"]), st.just(["payload"]), st.just(["payload"])]
-    common = common + [st.just(["shutdown"]), st.just(["startup"]), st.just(["reset"]),
+    common = common + [st.just(["scan_port"]), st.just(["shutdown"]), st.just(["startup"]), st.just(["reset"]),
                        st.sampled_from(direct_ops(kind)), st.sampled_from(direct_ops(kind))]
     others = [a for a in ("web-browser", "database-client", "dos-bot") if a != typ]
     if PARTNER.get(typ) in others:  # prefer the application that shares the target's port
@@ -1032,10 +1093,10 @@ def state_sweep_cases():
             for pre in prefixes:
                 for lis in (False, "c2", "port"):
                     yield {"kind": kind, "type": typ, "declare": not system, "extra": [], "listener": lis, "rd": 2 if kind == "service" else None,
-                           "pd": 0, "ops": [list(o) for o in pre] + [["payload"], ["tick"], ["payload"]]}
+                           "pd": 0, "ops": [list(o) for o in pre] + [["payload"], ["scan_port"], ["tick"], ["payload"], ["scan_port"]]}
                 if typ in REDECLARABLE:  # the same software declared again in the scenario file
                     yield {"kind": kind, "type": typ, "declare": True, "extra": [], "listener": False, "rd": 2 if kind == "service" else None,
-                           "pd": 0, "ops": [list(o) for o in pre] + [["payload"], ["tick"], ["payload"]]}
+                           "pd": 0, "ops": [list(o) for o in pre] + [["payload"], ["scan_port"], ["tick"], ["payload"], ["scan_port"]]}
 
 
 # two programs on one (port, protocol): (target kind, target, declare, other application)
@@ -1156,7 +1217,17 @@ def interrupt_cases():
             for pos in range(rd + 1):  # disable (the only request accepted while RESTARTING) at each tick position of the window
                 ops = [["req", "restart"]] + [["tick"]] * pos + [["req", "disable"]] + [["tick"]] * (rd + 3) + [["payload"]] + \
                       [["req", "enable"]] + [["tick"]] * (rd + 2) + [["req", "start"]] + [["tick"]] * (rd + 2) + [["payload"]]
+                # ... and a SECOND restart, whose duration is measured like the first (band + interference-free baseline)
+                ops += [["req", "restart"]] + [["tick"]] * (rd + 2) + [["payload"]]
                 yield dict(base, rd=rd, ops=[list(o) for o in ops])
+                ops = [["req", "restart"]] + [["tick"]] * pos + [["req", "disable"], ["req", "enable"], ["req", "start"],
+                                                                  ["req", "restart"]] + [["tick"]] * (rd + 2) + [["payload"]]
+                yield dict(base, rd=rd, ops=[list(o) for o in ops])
+        # a fix with other accepted requests in its window, then a second fix whose duration is measured
+        for mid in ([["req", "stop"], ["req", "start"]], [["req", "pause"], ["req", "resume"]], [["req", "restart"]],
+                    [["node_off"], ["node_on"]]):
+            ops = [["req", "fix"], ["tick"]] + mid + [["tick"]] * 4 + [["req", "fix"]] + [["tick"]] * 4 + [["payload"]]
+            yield dict(base, rd=1, ops=[list(o) for o in ops])
         for verb in ("stop", "pause", "restart", "disable"):  # accepted while the service is RUNNING and its health FIXING
             for pos in (0, 1):
                 back = {"stop": ["req", "start"], "pause": ["req", "resume"], "restart": ["tick"], "disable": ["req", "enable"]}[verb]
@@ -1173,7 +1244,8 @@ def interrupt_cases():
         for pos in (0, 1):  # close / uninstall-then-reinstall while FIXING
             ops = [["req", "fix"]] + [["tick"]] * pos + [["req", "close"]] + [["tick"]] * 4 + [["payload"], ["req", "execute"], ["tick"]]
             yield dict(base, ops=[list(o) for o in ops])
-            ops = [["req", "fix"]] + [["tick"]] * pos + [["uninstall"], ["install"]] + [["tick"]] * 5 + [["payload"]]
+            ops = [["req", "fix"]] + [["tick"]] * pos + [["uninstall"], ["install"]] + [["tick"]] * 5 + [["payload"]] + \
+                  [["req", "fix"]] + [["tick"]] * 4  # second fix, on the re-installed instance, measured
             yield dict(base, ops=[list(o) for o in ops])
 
 
